@@ -7,6 +7,7 @@ CONSTANTS
   MultiSets = {"m1", "m2", "m3"}
   RotElems = {1, 2, 3, 4, 5, 6, 7, 8, 9, 10, 11}
   RCoefs = {100, 90, 70, 50}
+  TailSets = {"upsk", "losk", "bosk"}
   Kinds = {"AH", "AE", "PCA", "MAF", "NS", "ROT"}
   MaxLen = 3
 CONSTRAINT Emit
